@@ -2664,6 +2664,12 @@ MODULE_GROUPS = [("Steps", "steps", STEP_MODULES), ("Setters", "setters", SETTER
 
 
 def step_module_props():
+    d = {"layout." + k: set(v) for k, v in COUNTER_PROPS.items()}
+    d.update(_module_props())
+    return d
+
+
+def _module_props():
     return {"%s.%s" % (key, m): set(props) for _, key, mods in MODULE_GROUPS for m, _, props, _ in mods}
 
 
@@ -2705,6 +2711,55 @@ def regenerate_modules(ast=None):
                         f.write(txt)
             rep["%s.%s" % (key, mod)] = status
     return rep
+
+
+# ------------------------------------------------------------------------------------ T21
+# the unsigned counters of the object and of the descriptor that the model keeps as unbounded natural numbers: the model
+# describes them as long as they cannot wrap, i.e. as long as they are as wide as `size_t` on the 64-bit target (no buffer,
+# table or line has 2^64 elements).  The widths are read from the struct declarations; the property files state
+# `Gen.width_<struct>_<field> = 64` for the counters they rest on.
+
+COUNTERS = [("cat_object", "obj", ["index", "partial_cntr", "length", "position", "write_size", "commands_num"]),
+            ("cat_unsolicited_fsm", "uns", ["index", "position", "unsolicited_cmd_buffer_tail", "unsolicited_cmd_buffer_head",
+                                            "unsolicited_cmd_buffer_items_count"]),
+            ("cat_variable", "var", ["data_size"]), ("cat_command", "cmd", ["var_num"]), ("cat_command_group", "group", ["cmd_num"]),
+            ("cat_descriptor", "desc", ["cmd_group_num", "buf_size", "unsolicited_buf_size"])]
+UWIDTH = {"unsigned long": 64, "unsigned long long": 64, "unsigned int": 32, "unsigned short": 16, "unsigned char": 8, "unsigned __int128": 128}
+COUNTER_PROPS = {
+    "obj_index": {"C02", "C03", "C04", "C09", "C19"}, "obj_partial_cntr": {"C02", "C03"}, "obj_length": {"C01", "C02", "C03", "C06"},
+    "obj_position": {"C03", "C04", "C05", "C06", "C07", "C11", "C19"}, "obj_write_size": {"C03", "C05"},
+    "obj_commands_num": {"C02", "C03", "C19"},
+    "uns_index": {"C03", "C07", "C19"}, "uns_position": {"C03", "C07", "C11", "C19"},
+    "uns_unsolicited_cmd_buffer_tail": {"C03", "C13"}, "uns_unsolicited_cmd_buffer_head": {"C03", "C13"},
+    "uns_unsolicited_cmd_buffer_items_count": {"C03", "C13", "C15"},
+    "var_data_size": {"C03", "C04", "C05", "C07"}, "cmd_var_num": {"C03", "C04", "C07", "C19"}, "group_cmd_num": {"C02", "C03", "C19"},
+    "desc_cmd_group_num": {"C02", "C03", "C19"}, "desc_buf_size": {"C03", "C06"}, "desc_unsolicited_buf_size": {"C03", "C06"},
+}
+
+
+def t21(ast):
+    recs = {}
+    for n in ast["inner"]:
+        if n.get("kind") == "RecordDecl" and n.get("inner"):
+            fs = {f["name"]: f.get("type", {}) for f in n["inner"] if f.get("kind") == "FieldDecl"}
+            if fs:
+                recs[n.get("name")] = fs
+    defs, rep = [], {}
+    for rec, short, fields in COUNTERS:
+        for fld in fields:
+            key = "%s_%s" % (short, fld)
+            ty = recs.get(rec, {}).get(fld)
+            if ty is None:
+                defs.append("def width_%s : Nat := 0" % key)
+                rep["layout." + key] = "anomaly: struct %s has no field %s" % (rec, fld)
+                continue
+            base = ty.get("desugaredQualType") or ty.get("qualType")
+            w = UWIDTH.get(base, 0)
+            defs.append("def width_%s : Nat := %d        -- `%s %s` in struct %s" % (key, w, ty.get("qualType"), fld, rec))
+            rep["layout." + key] = "translated" if w == 64 else \
+                "anomaly: %s.%s is declared `%s` (%s): the model keeps it as an unbounded counter, which describes a 64-bit size_t only" % (
+                    rec, fld, ty.get("qualType"), ("%d bits" % w) if w else "not an unsigned integer type")
+    return defs, rep
 
 
 def expected_defs():
@@ -2749,6 +2804,10 @@ def generate():
     parts.append("def locked_api : List String := [%s]" % ", ".join('"%s"' % x for x in locked))
     parts.append("def unlocked_api : List String := [%s]" % ", ".join('"%s"' % x for x in unlocked))
     rep["T5"] = "translated" if not r5 else "anomaly: %s" % r5
+    parts.append("\n/-! T21: width in bits of the unsigned counters the model keeps as natural numbers -/")
+    d21, r21 = t21(ast)
+    parts += d21
+    rep.update(r21)
     parts.append("\nend Cat.Gen\n")
     return "\n".join(parts), rep
 
